@@ -38,6 +38,7 @@ func c10(c *Ctx) {
 	}
 	c.ExpectAll("selfcheck/reports-what-it-wrote", rets, pat("ltx.(*Encoder).Header(ltx.NewEncoder(p2)) | ltx.(*Encoder).Trailer(ltx.NewEncoder(p2))"), 1, "the snapshot reports the header/trailer it wrote", "")
 	c.ckptGate("ckpt-gate")
+	c.ckptCopiesAll("ckpt")
 }
 
 // ckptGate (C10, C11): TryLocks refuses the CKPT lock to an owner while
